@@ -9,7 +9,9 @@ OBJS = ["a", "b", "sub"]
 STRS = ["", "a", "hello", "x y", "é", "あ", "q\"r", "%1"]
 PROP = {"bool": "b", "int": "i", "uint": "u", "string": "s", "vobj": "next", "double": "d"}
 ANNOT = {"bool": ["bool"], "int": ["int"], "uint": ["uint"], "string": ["QString"], "vobj": ["VObj"], "double": ["double"]}
-FLOAT_LITS = ["0.0", "0.5", "1.5", "2.0", "0.1", "1e10", "2.5e-3", "100.0"]
+# short spellings and constants that need all 17 significant digits to be told apart from their neighbours
+FLOAT_LITS = ["0.0", "0.5", "1.5", "2.0", "0.1", "1e10", "2.5e-3", "100.0", "0.30000000000000004", "0.3333333333333333", "2251799813685249.5", "1.7976931348623157e308",
+              "0.1000000000000000055", "9007199254740993.0"]
 
 
 class Gen:
